@@ -103,13 +103,17 @@ def run(ctx):
                          'extension (payload does not fit 32 bits): behaviour reported as information only',
                          'sequences of more than five bytes']
     ctx.assumptions = ['domain: terminated LEB128 sequences of 1..5 bytes whose payload fits 32 bits '
-                       '(over-long zero/sign padded encodings included)']
+                       '(over-long zero/sign padded encodings included; for sleb128 the three unused bits of a 5th '
+                       'byte may be the sign extension or zero)']
     B = [fresh_byte('b%d' % i) for i in range(5)]
     buf = SBytes(B + [0x5a])       # one guard byte that must never be consumed
     n = z_len(B)
     dom_u = z3.And(n <= 5, z3.Implies(n == 5, B[4].e <= 0x0f))
     sx5 = z3.If((B[4].e >> 3) & 1 == 1, (B[4].e & 0x70) == 0x70, (B[4].e & 0x70) == 0)
-    dom_s = z3.And(n <= 5, z3.Implies(n == 5, sx5))
+    # 5th byte of a signed value: its low four bits are bits 28..31; the three unused bits are either the sign
+    # extension (padded canonical form) or zero (the 32-bit pattern written without extension, which AOSP's
+    # readSignedLeb128 also reads as that 32-bit value)
+    dom_s = z3.And(n <= 5, z3.Implies(n == 5, z3.Or(sx5, (B[4].e & 0x70) == 0)))
 
     def ex(m):
         return dict(kind='read', bytes=mbytes(m, B).hex())
